@@ -626,4 +626,111 @@ theorem workspaceSearch_confined (w : World) (tok : Nat) (query : List Char) (li
                 subst hx
                 exact hu
 
+/-! ### `create_dir_all` -/
+
+theorem mkdirs_made (fs : FS) (ca : Path) (rest : List Name) (acc : Path) :
+    ∀ q ∈ (mkdirs fs ca rest acc).2, ∃ k, 0 < k ∧ k ≤ rest.length ∧ q = ca ++ acc ++ rest.take k := by
+  induction rest generalizing fs acc with
+  | nil => simp [mkdirs]
+  | cons r rest ih =>
+    intro q hq
+    simp only [mkdirs, List.mem_cons] at hq
+    rcases hq with rfl | hq
+    · exact ⟨1, by omega, by simp, by simp⟩
+    · obtain ⟨k, hk0, hk, rfl⟩ := ih _ _ q hq
+      exact ⟨k + 1, by omega, by simp; omega, by simp⟩
+
+/-- every directory `create_dir_all(root ++ parts')` creates lies below the canonical form of the
+closest existing ancestor, through components of `parts'` -/
+theorem mkdirAll_under {fs fs1 : FS} {root : Path} {parts' : List Name} {made : List Path} {cr : Path}
+    (hroot : pexists fs root = true) (hparts : ∀ c ∈ parts', isHiddenName c = false)
+    (hca : ∀ ca, canon fs (closestExisting fs (root ++ parts').length (root ++ parts')) = some ca →
+      Under cr ca)
+    (hm : mkdirAll fs (root ++ parts') = some (fs1, made)) : ∀ q ∈ made, Under cr q := by
+  unfold mkdirAll at hm
+  simp only at hm
+  split at hm
+  · rename_i ca hst
+    have hcanon : canon fs (closestExisting fs (root ++ parts').length (root ++ parts')) = some ca := by
+      unfold stat at hst
+      split at hst
+      · cases hst
+      · rename_i q0 hq0
+        split at hst
+        · cases hst
+        · simp only [Option.some.injEq, Prod.mk.injEq] at hst
+          rw [hq0, hst.1]
+    have hu := hca ca hcanon
+    -- the dropped suffix consists of components of `parts'`
+    have hsuf : ∀ c ∈ (root ++ parts').drop
+        (closestExisting fs (root ++ parts').length (root ++ parts')).length, isHiddenName c = false := by
+      obtain ⟨s, hs⟩ := closestExisting_above fs (root ++ parts').length root (root ++ parts') hroot
+        (List.prefix_append _ _)
+      intro c hc
+      rw [← hs, List.length_append, List.drop_append] at hc
+      simp only [List.mem_append] at hc
+      rcases hc with hc | hc
+      · have : List.drop (root.length + s.length) root = [] := by
+          apply List.drop_eq_nil_of_le; omega
+        rw [this] at hc; cases hc
+      · exact hparts c (List.mem_of_mem_drop hc)
+    split at hm
+    · cases hm; simp
+    · rename_i r rest hdrop
+      split at hm
+      · cases hm
+      · simp only [Option.some.injEq] at hm
+        intro q hq
+        have hq' : q ∈ (mkdirs fs ca (r :: rest) []).2 := by rw [hm]; exact hq
+        obtain ⟨k, _, _, rfl⟩ := mkdirs_made fs ca (r :: rest) [] q hq'
+        simp only [List.append_nil]
+        apply hu.append
+        intro c hc
+        apply hsuf c
+        rw [hdrop]
+        exact List.mem_of_mem_take hc
+  · cases hm
+
+theorem Resolved.mkdirAll_parent {fs fs1 : FS} {root : Path} {par : List Name} {l : Name}
+    {made : List Path} (h : Resolved fs root (par ++ [l])) (hpar : ∀ c ∈ par, isHiddenName c = false)
+    (hm : mkdirAll fs (root ++ par) = some (fs1, made)) :
+    ∀ q ∈ made, Under (canonRoot fs root) q := by
+  apply mkdirAll_under (pexists_of_pisDir _ _ h.rootDir) hpar _ hm
+  intro ca hca
+  obtain ⟨ca', hca', hu⟩ := h.anc
+  have hP : (root ++ (par ++ [l])).dropLast = root ++ par := by
+    rw [← List.append_assoc, List.dropLast_concat]
+  rw [hP, hca] at hca'
+  cases hca'
+  exact hu
+
+theorem Resolved.mkdirAll_self {fs fs1 : FS} {root : Path} {par : List Name} {l : Name}
+    {made : List Path} (h : Resolved fs root (par ++ [l])) (hpar : ∀ c ∈ par, isHiddenName c = false)
+    (hl : isHiddenName l = false) (hne : pexists fs (root ++ (par ++ [l])) = false)
+    (hm : mkdirAll fs (root ++ (par ++ [l])) = some (fs1, made)) :
+    ∀ q ∈ made, Under (canonRoot fs root) q := by
+  apply mkdirAll_under (pexists_of_pisDir _ _ h.rootDir) _ _ hm
+  · intro c hc
+    simp only [List.mem_append, List.mem_singleton] at hc
+    rcases hc with hc | rfl
+    · exact hpar c hc
+    · exact hl
+  · intro ca hca
+    obtain ⟨ca', hca', hu⟩ := h.anc
+    have hlen : (root ++ (par ++ [l])).length = (root ++ (par ++ [l])).dropLast.length + 1 := by
+      simp; omega
+    rw [hlen, closestExisting_step fs _ _ hne, hca'] at hca
+    cases hca
+    exact hu
+
+theorem confined_mkdirs {cr : Path} {made : List Path} (h : ∀ q ∈ made, Under cr q) :
+    ∀ e ∈ made.map Effect.mkdir, e.Confined cr := by
+  intro e he
+  simp only [List.mem_map] at he
+  obtain ⟨q, hq, rfl⟩ := he
+  intro x hx
+  simp only [Effect.paths, List.mem_singleton] at hx
+  rw [hx]
+  exact h q hq
+
 end TrustVerif.C19
